@@ -97,7 +97,7 @@ theorem endless_prefix {α : Type} (src : Source α) (he : Endless src) (N : Nat
 theorem raised_mono {α : Type} (lim : Limit) (src : Source α) (r : Run α) (h : r.raised = true) :
     (r.step lim src).raised = true := by
   unfold Run.step
-  split <;> simp [h]
+  split <;> simp_all
 
 theorem raised_run {α : Type} (lim : Limit) (src : Source α) : ∀ (k : Nat) (r : Run α), r.raised = true →
     (run lim src k r).raised = true
@@ -138,7 +138,7 @@ theorem unlimited_never_raises {α : Type} (src : Source α) : ∀ (k : Nat) (r 
       apply unlimited_never_raises src k
       unfold Run.step limNext
       cases r.st.dead <;> simp [h, blocks]
-      cases src r.st.idx <;> simp [h]
+      cases src r.st.idx <;> simp
 
 example : (run (some 2) (fun i => some i) 10 {}).items = [0, 1] ∧ (run (some 2) (fun i => some i) 10 {}).st.idx = 3
     ∧ (run (some 2) (fun i => some i) 10 {}).raised = true := by decide
@@ -203,8 +203,8 @@ theorem limitMemory_one (Q : Int) (s : Nat) : limitMemory Q [(1, s)] = true ↔ 
   · simp [hq]
   · simp only [hq, if_false, limitMemoryGo, false_or]
     by_cases h : (0 : Int) + 1 * (s : Int) > Q
-    · simp [h] <;> omega
-    · simp [h] <;> omega
+    · simp <;> omega
+    · simp <;> omega
 
 theorem limitMemory_two (Q : Int) (c1 c2 : Int) (s1 s2 : Nat) (hq : 0 < Q) :
     limitMemory Q [(c1, s1), (c2, s2)] = true ↔ (c1 * s1 ≤ Q ∧ c1 * s1 + c2 * s2 ≤ Q) := by
